@@ -281,10 +281,24 @@ def _materialize(prog: Program, col: Collector, refs: Refs):
         if norm(key) == name_v and ar and norm(val.args[0]) == name_v and norm(val.args[1]) == f"{dom_v}.dtype":
             # guards around the append: only a test of the dtype being an int
             guards = [g for g in f.module.ancestors(a) if isinstance(g, ast.If) and any(g is y for y in ast.walk(lp))]
-            only_dtype = all(isinstance(g.test, ast.Call) and isinstance(g.test.func, ast.Name) and g.test.func.id == "isinstance" and norm(g.test.args[0]) == f"{dom_v}.dtype"
-                             and norm(g.test.args[1]) == "int" for g in guards)
-            ok = only_dtype and not any(isinstance(x, (ast.Break, ast.Continue, ast.Return)) for x in ast.walk(lp))
+            atoms = [at for g in guards for at in (g.test.values if isinstance(g.test, ast.BoolOp) and isinstance(g.test.op, ast.And) else [g.test])]
+
+            def is_dtype_test(t):
+                return isinstance(t, ast.Call) and isinstance(t.func, ast.Name) and t.func.id == "isinstance" and norm(t.args[0]) == f"{dom_v}.dtype" and norm(t.args[1]) == "int"
+
+            def is_scalar_test(t):
+                sh = f"{dom_v}.shape"
+                return norm(t) in (f"not {sh}", f"{sh} == ()", f"() == {sh}", f"len({sh}) == 0", f"not len({sh})", f"{dom_v}.num_elements == 1")
+            only_known = all(is_dtype_test(t) or is_scalar_test(t) for t in atoms) and any(is_dtype_test(t) for t in atoms)
+            ok = only_known and not any(isinstance(x, (ast.Break, ast.Continue, ast.Return)) for x in ast.walk(lp))
             why = "the append is skipped for some integer inputs" if not ok else ""
+            if ok and not any(is_scalar_test(t) for t in atoms):
+                # an index range over Bint[n] can only stand for a SCALAR bounded integer
+                col.violation(f"{f.fq}::array-valued integer inputs", f"`new_arange({name_v}, {dom_v}.dtype)` (a scalar index range of output Bint[n]) is substituted for every input whose dtype is "
+                              f"an int, also for one with a non-empty `{dom_v}.shape`: the input silently changes from an integer array to a scalar and the function's output shape with it "
+                              "(materialize(Variable('v', Array[3, (2,)])) is an arange over v: Bint[3])", f.loc(a))
+            elif ok:
+                col.ok(f"{f.fq}::array-valued integer inputs", "only scalar-shaped integer inputs are replaced by an index range", f.loc(a))
         elif norm(key) == name_v:
             why = f"the value substituted for `{name_v}` is `{norm(val)[:40]}`, not new_arange({name_v}, {dom_v}.dtype)"
     col.check(ok, construct, "every integer-typed input is substituted by an arange over its own name and size",
@@ -468,4 +482,10 @@ def run(prog: Program, col: Collector, tier: str, refs: Optional[Refs] = None, c
     c04._self_referential_filter(prog, col, refs, cat)
     col.rule("R19.7", "an input is renamed to the name of a substituted value only after that name is tested against the term's own inputs (shared with C04 R04.9)", floor=2)
     c04._rename_clash(prog, col, refs, cat, c04._subs_collections(prog, refs, cat))
+    # materialize substitutes an arange (a Tensor index) for every integer input and must agree with point evaluation (a Number index): shared with C04
+    col.rule("R19.10", "the Number and the Tensor branch of an eager_subs compute the same function of the index data (shared with C04 R04.5)", floor=1)
+    c04._ground_index_siblings(prog, col, refs, cat)
+    # binary rules over aligned operands (Binary(op, Align, Align) and the tensor rules) keep the operand order: shared with C02
+    from . import algebra
+    algebra.r_binary_rule_operand_order(prog, col, refs, cat, "R19.11")
     return col
